@@ -1,0 +1,99 @@
+// Copyright 2020 Denis Bernard <db047h@gmail.com>. All rights reserved.
+// Use of this source code is governed by a BSD-style
+// license that can be found in the LICENSE file.
+
+//go:build verif
+// +build verif
+
+package decimal
+
+import (
+	"sync"
+	"unsafe"
+)
+
+// VerifPoolEvent describes a Get or a Put of a scratch buffer.
+type VerifPoolEvent struct {
+	Put bool    // false: Get
+	Buf uintptr // identity of the *dec
+	N   int     // requested length (Get) or current length (Put)
+}
+
+var verifPool struct {
+	mu     sync.Mutex
+	on     bool
+	poison bool
+	free   []*dec // LIFO: a buffer put too early is handed to the very next getter
+	hook   func(VerifPoolEvent)
+}
+
+// VerifPoolEnable replaces the sync.Pool of scratch buffers by a shared LIFO free
+// list. If poison is set, buffers are filled with invalid words (>= the decimal
+// base) when they are put back and when they are handed out, so that a use after
+// put, or a reliance on zeroed scratch memory, corrupts the result
+// deterministically. hook, if not nil, is called for every Get (after the buffer
+// was obtained) and every Put (before the buffer becomes available again),
+// outside of the pool's lock; it may block.
+func VerifPoolEnable(poison bool, hook func(VerifPoolEvent)) {
+	verifPool.mu.Lock()
+	verifPool.on, verifPool.poison, verifPool.hook, verifPool.free = true, poison, hook, nil
+	verifPool.mu.Unlock()
+}
+
+// VerifPoolDisable restores the sync.Pool.
+func VerifPoolDisable() {
+	verifPool.mu.Lock()
+	verifPool.on, verifPool.hook, verifPool.free = false, nil, nil
+	verifPool.mu.Unlock()
+}
+
+func verifPoison(z dec) {
+	z = z[:cap(z)]
+	for i := range z {
+		z[i] = ^Word(0) - Word(i&7)
+	}
+}
+
+func verifGetDec(n int) *dec {
+	verifPool.mu.Lock()
+	if !verifPool.on {
+		verifPool.mu.Unlock()
+		return nil
+	}
+	var z *dec
+	if k := len(verifPool.free); k > 0 {
+		z = verifPool.free[k-1]
+		verifPool.free = verifPool.free[:k-1]
+	} else {
+		z = new(dec)
+	}
+	poison, hook := verifPool.poison, verifPool.hook
+	verifPool.mu.Unlock()
+	*z = z.make(n)
+	if poison {
+		verifPoison(*z)
+	}
+	if hook != nil {
+		hook(VerifPoolEvent{Buf: uintptr(unsafe.Pointer(z)), N: n})
+	}
+	return z
+}
+
+func verifPutDec(x *dec) bool {
+	verifPool.mu.Lock()
+	on, poison, hook := verifPool.on, verifPool.poison, verifPool.hook
+	verifPool.mu.Unlock()
+	if !on {
+		return false
+	}
+	if hook != nil {
+		hook(VerifPoolEvent{Put: true, Buf: uintptr(unsafe.Pointer(x)), N: len(*x)})
+	}
+	if poison {
+		verifPoison(*x)
+	}
+	verifPool.mu.Lock()
+	verifPool.free = append(verifPool.free, x)
+	verifPool.mu.Unlock()
+	return true
+}
